@@ -403,6 +403,9 @@ def rule_special_hosts(ctx, rule):
                "SPECIAL_HOSTS_RE treats %r as a special host (only localhost, dotted quads and colon-bearing hex literals are): ordinary hostnames skip the TLD / suffix / tokenisation logic" % w, site, witness=w)
     except Unsupported as e:
         ctx.undecided(rule, "SPECIAL_HOSTS_RE: %s" % e)
+        language_undecided = True
+    else:
+        language_undecided = False
     hm = ctx.repo.mod("has_special_host")
     fn = hm.func("is_special_host").node
     ok = "SPECIAL_HOSTS_RE.match(hostname)" in unparse(fn) or "re.match(SPECIAL_HOSTS_RE, hostname)" in unparse(fn)
@@ -412,7 +415,8 @@ def rule_special_hosts(ctx, rule):
         from ..microeval import run_function, Raised
         ref = hm.func("is_special_host")
         out = []
-        for h, want in (("localhost", True), ("LOCALHOST", True), ("127.0.0.1", True), ("127.0.0.1:8080", True), ("::1", True), ("2001:db8::1", True), ("a.com", False), ("localhost.a.com", False), ("1.2.3.4.a.com", False), ("abc", False)):
+        for h, want in (("localhost", True), ("LOCALHOST", True), ("127.0.0.1", True), ("127.0.0.1:8080", True), ("::1", True), ("2001:db8::1", True), ("a.com", False), ("localhost.a.com", False), ("1.2.3.4.a.com", False), ("abc", False),
+                        ("localhosting.com", False), ("10.0.0.1.nip.io", False), ("1.2.3.4a", False), ("a.localhost", False), ("x1.2.3.4", False), ("localhost:8080", True), ("::1.a.com", False), ("abc:g", False), ("1.2.3", False)):
             try:
                 got = run_function(ctx.repo, ref, [h])
             except Raised as e:
@@ -420,6 +424,9 @@ def rule_special_hosts(ctx, rule):
             out.append(("is_special_host(%r) -> %r" % (h, got), got is want))
         return out
     ctx.ob(rule, "is_special_host/matches-the-hostname", ok, "is_special_host does not apply SPECIAL_HOSTS_RE.match to the hostname", hm.site(fn), cells=special_cells)
+    if language_undecided:
+        # the pattern uses a construct outside the language algebra: the predicate is read on one host per class instead
+        ctx.ob(rule, "SPECIAL_HOSTS_RE/on-host-classes", False, "is_special_host does not answer localhost / dotted quad / colon-bearing hex literal exactly", site, cells=special_cells)
 
 
 def netloc_template(ctx, rule):
